@@ -170,7 +170,7 @@ class InstGen:
         if t == "integer":
             return self.int_for(s)
         if t == "number":
-            return self.pick([0.5, -1.25, 3.0, 1024.0, 0.0, 7, -2])
+            return self.pick([0.5, -1.25, 2.5, 1024.5, 0.25, 7, -2])  # no integral floats: the oracle reads 3.0 as an integer
         if t == "string":
             return self.string_for(s, minimal)
         if t == "array":
